@@ -16,6 +16,7 @@ import (
 	_ "verifharness/mon/c12"
 	_ "verifharness/mon/c15"
 	_ "verifharness/mon/c16"
+	_ "verifharness/mon/c17"
 	_ "verifharness/mon/c19"
 )
 
